@@ -1,4 +1,5 @@
 import NA.Model.MaskSinks
+import NA.Model.MaskFlow
 /-!
 # Lemmas for C17: the masking functions do not depend on the secret they mask
 
@@ -565,5 +566,40 @@ theorem keygen_query (user pass : Str) :
   simp [valuesEncode, sortKV, insertKV, h1, h2, h3, joinKV, e1, e2, e3, e4, litPass]
 
 theorem goQuote_cons_amp (t : Str) : goQuote ('&' :: t) = '&' :: goQuote t := by simp [goQuote]
+
+/-! ## 5. runs derived from regenerated steps -/
+
+theorem restrictEnv_eq (deps : List Nat) (env1 env2 : LEnv) (h0 : env1 0 = env2 0)
+    (hd : deps.all (· == 0) = true) : restrictEnv deps env1 = restrictEnv deps env2 := by
+  funext l
+  unfold restrictEnv
+  cases hl : deps.contains l with
+  | true =>
+    simp only [if_true]
+    have : l = 0 := by
+      rw [List.all_eq_true] at hd
+      have := hd l (by simpa using hl)
+      simpa using this
+    rw [this, h0]
+  | false => simp
+
+/-- **Generic non-interference of a derived run**: whatever the code computes at its sinks (`F`), if no
+sink step depends on a secret label, two runs whose non-secret values agree write the same. -/
+theorem runSteps_independent (F : Nat → LEnv → Str) (env1 env2 : LEnv) (h0 : env1 0 = env2 0) :
+    ∀ steps : List Step, secretFree steps = true → runSteps F env1 steps = runSteps F env2 steps := by
+  intro steps
+  induction steps with
+  | nil => intro _; rfl
+  | cons s r ih =>
+    intro h
+    simp only [secretFree, List.all_cons, Bool.and_eq_true] at h
+    have hr : secretFree r = true := h.2
+    simp only [runSteps]
+    cases hs : s.isSink with
+    | false => simp only [Bool.false_eq_true, if_false]; exact ih hr
+    | true =>
+      have hd : s.deps.all (· == 0) = true := by simpa [hs] using h.1
+      simp only [if_true]
+      rw [restrictEnv_eq s.deps env1 env2 h0 hd, ih hr]
 
 end NA.Mask
